@@ -188,13 +188,15 @@ def run_model_stage(pid: str, m: dict, tier: str, seed: int, wd: str):
     if dump:
         path = dump if os.path.exists(dump) else dump + (".dot" if m.get("dump") == "dot" else ".dump")
         items, extra = getattr(replay, m["extract"])(path)
-        stats.update(extra)
+        stats.update({k: v for k, v in extra.items() if k != "always"})
         limit = m["limit"][tier]
         stats["programs"] = len(items)
+        always = extra.pop("always", [])          # vectors the extractor wants replayed in every run (small families)
         if len(items) > limit:
             # deterministic thinning: every k-th program, offset by the seed
             k = (len(items) + limit - 1) // limit
             items = items[seed % k::k]
+        items = always + items
         stats["programs_replayed"] = len(items)
         if not items:
             raise tlc.MachineryError("bounded model %s produced no test vectors: the model is vacuous" % cfg)
